@@ -153,6 +153,7 @@ Inductive call :=
 | PRemoveNode (n : name)
 | PGetCapacity (ns : list name)
 | PSetCapacity (n : name) (req : option Z) (delta : bool)   (* memory request; None = empty request (no-op) *)
+| PRestoreCapacity (n : name) (cap : res)                  (* SetNodeResourceCapacity(node resource = cap, no request, delta=false) *)
 | PSetUsage (n : name) (rs : list res) (incr : bool)
 | PGetInfo (n : name)
 | PAlloc (n : name) (k : nat) (r : res)
@@ -239,7 +240,7 @@ Fixpoint names_eqb (a b : list name) : bool :=
   end.
 Definition event_eqb (a b : event) : bool :=
   match a, b with
-  | EvAlloc x, EvAlloc y => names_eqb x y
+  | EvAlloc _, EvAlloc _ => true      (* one allocate-workload entry per deployment; the node list is not part of the address *)
   | EvProc n i, EvProc m j => Nat.eqb n m && Nat.eqb i j
   | EvCreate x, EvCreate y => wid_eqb x y
   | EvLambda x, EvLambda y => wid_eqb x y
@@ -290,6 +291,7 @@ Definition key_of (c : call) : key :=
   | PRemoveNode n => KCall (MPRemoveNode, TName n)
   | PGetCapacity _ => KCall (MPGetCapacity, TNone)
   | PSetCapacity n _ _ => KCall (MPSetCapacity, TName n)
+  | PRestoreCapacity n _ => KCall (MPSetCapacity, TName n)
   | PSetUsage n _ _ => KCall (MPSetUsage, TName n)
   | PGetInfo n => KCall (MPGetInfo, TName n)
   | PAlloc n _ _ => KCall (MPAlloc, TName n)
@@ -391,10 +393,16 @@ Definition exec (w : world) (c : call) : world * reply :=
     | Some m =>
       match find_plug w n with
       | None => (w, RErr ENatural)
-      | Some _ =>
+      | Some p0 =>
         (set_plugs w (upd_plug n (fun p => mkPlug (p_node p)
-                                     (fst (p_cap p), if delta then snd (p_cap p) + m else m) (p_use p)) (plugs w)), ROk)
+                                     (fst (p_cap p), if delta then snd (p_cap p) + m else m) (p_use p)) (plugs w)),
+         RInfo (p_cap p0) (p_use p0))        (* cobalt reports the capacity before the change *)
       end
+    end
+  | PRestoreCapacity n cap =>
+    match find_plug w n with
+    | None => (w, RErr ENatural)
+    | Some _ => (set_plugs w (upd_plug n (fun p => mkPlug (p_node p) cap (p_use p)) (plugs w)), ROk)
     end
   | PSetUsage n rs incr =>
     match find_plug w n with
